@@ -12,10 +12,9 @@
 // See the License for the specific language governing permissions and
 // limitations under the License.
 
-use std::{
-    borrow::Borrow,
-    collections::{HashMap, HashSet},
-};
+use std::{borrow::Borrow, collections::HashSet};
+
+use indexmap::IndexMap;
 
 #[cfg(not(feature = "python"))]
 use optipy::strip_pyo3;
@@ -32,7 +31,7 @@ use crate::instruction::{FrameAttributes, FrameDefinition, FrameIdentifier, Inst
     pyo3::pyclass(module = "quil._quil.program", eq, from_py_object)
 )]
 pub struct FrameSet {
-    pub(crate) frames: HashMap<FrameIdentifier, FrameAttributes>,
+    pub(crate) frames: IndexMap<FrameIdentifier, FrameAttributes>,
 }
 
 impl FrameSet {
@@ -122,7 +121,7 @@ impl FrameSet {
     }
 
     /// Iterate through the contained frames.
-    pub fn iter(&self) -> std::collections::hash_map::Iter<'_, FrameIdentifier, FrameAttributes> {
+    pub fn iter(&self) -> indexmap::map::Iter<'_, FrameIdentifier, FrameAttributes> {
         self.frames.iter()
     }
 
